@@ -286,14 +286,21 @@ PROPS = {
     },
     "C20": {
         "v_units": ["capacity.py"],
-        "claim": "degree rule only: CommitKey::truncate(d) (Err(TruncatedDegreeIsZero) for 0, Err(TruncatedDegreeTooLarge) beyond the key, "
+        "r": [("kzg", None)],
+        "claim": "(a) aggregated opening: compute_aggregate_witness(p_0..p_k, z, v) == ruffini(sum_j v^j p_j, z) with POSITIONAL powers "
+                 "(instances of 0,1,3,4 polynomials; pointwise loop abstracted to a polynomial operation); (b) batched check: "
+                 "batch_challenge absorbs domain separator, length and every (point, commitment, evaluation, witness) in order before the "
+                 "squeeze; batch_check rejects empty / mismatched batches before any arithmetic and otherwise tests "
+                 "e(-sum u^i W_i, [x]_2) e(sum u^i (C_i + z_i W_i) - (sum u^i e_i) g, [1]_2) == 1 with every entry contributing "
+                 "(batch sizes 1-3); (c) degree rule: CommitKey::truncate(d) (Err(TruncatedDegreeIsZero) for 0, Err(TruncatedDegreeTooLarge) beyond the key, "
                  "else the prefix of d+1 powers, with the documented d == 1 quirk), max_degree == len - 1, PublicParameters::trim(n) keeps "
                  "n + 7 powers iff n + 6 <= max_degree, check_commit_degree_is_within_bounds: Err(PolynomialDegreeTooLarge) iff degree > max_degree.",
-        "technique": "contract-based deductive verification: Verus on the real functions annotated in place (overlay)",
-        "level_note": "NOT decided: linearity of commitments, consistency of generated parameters, correctness of openings (pairing algebra).",
+        "technique": "contract-based deductive verification: Verus (degree rule) + ring/trace contract checker (aggregate witness, batch check)",
+        "level_note": "R units are per batch size / list length (stated), not for all lengths. NOT decided: linearity of commitments (msm), "
+                      "consistency of generated parameters, ruffini = division by (X - z), pairing algebra.",
         "design_ref": "DESIGN.md §4 C20",
-        "assumptions": A_VERUS, "trusted": T_VERUS,
-        "not_covered": ["setup, commit linearity, open/verify/batch_check algebra"],
+        "assumptions": A_VERUS + A_RING, "trusted": T_VERUS + T_RING,
+        "not_covered": ["setup, commit linearity, ruffini, pairing algebra"],
     },
     "C15": {
         "v_units": ["capacity.py", "compress.py"],
